@@ -139,9 +139,5 @@ class Prop:
                 ctx.fail('a leading tag block changed how the sentence is parsed', {'cmd': 'attach', 'line': s.hex(), 'tb': tb.hex()},
                          exp[:150], o[:150], {'kind': 'sentence-unchanged'})
 
-    def replay(self, ctx, payload):
-        print(payload['failure']['input'])
-        return True
-
 
 PROP = Prop()
